@@ -20,9 +20,22 @@ package limiters
 
 import (
 	"context"
+	"errors"
 	"sync"
 	"time"
 )
+
+// ErrBucketSetFull is returned by TakeContext when the key has no bucket yet
+// and no stale bucket can be removed to make room for it.
+var ErrBucketSetFull = errors.New("limiters: bucket set is full")
+
+type bucket struct {
+	r       L
+	lastUse time.Time
+	// Amount of Take calls that are waiting for or are holding the resource.
+	// Buckets in use are never removed.
+	users int
+}
 
 // BucketSet combines a group of Ls into a single key-indexed structure.
 // Basically, each unique key gets its own counter. The main use case for
@@ -51,10 +64,7 @@ type BucketSet struct {
 	MaxBuckets int
 
 	mLck sync.Mutex
-	m    map[string]*struct {
-		r       L
-		lastUse time.Time
-	}
+	m    map[string]*bucket
 }
 
 func NewBucketSet(new_ func() L, reapInterval time.Duration, maxBuckets int) *BucketSet {
@@ -62,10 +72,7 @@ func NewBucketSet(new_ func() L, reapInterval time.Duration, maxBuckets int) *Bu
 		New:          new_,
 		ReapInterval: reapInterval,
 		MaxBuckets:   maxBuckets,
-		m: map[string]*struct {
-			r       L
-			lastUse time.Time
-		}{},
+		m:            map[string]*bucket{},
 	}
 }
 
@@ -78,15 +85,18 @@ func (r *BucketSet) Close() {
 	}
 }
 
-func (r *BucketSet) take(key string) L {
+// take returns the bucket for the key and marks it as used, release should
+// be called if the following Take on the bucket fails. It returns nil if the
+// set is full.
+func (r *BucketSet) take(key string) *bucket {
 	r.mLck.Lock()
 	defer r.mLck.Unlock()
 
-	if len(r.m) > r.MaxBuckets {
+	if _, ok := r.m[key]; !ok && len(r.m) > r.MaxBuckets {
 		now := time.Now()
 		// Attempt to get rid of stale buckets.
 		for k, v := range r.m {
-			if v.lastUse.Sub(now) > r.ReapInterval {
+			if v.users == 0 && now.Sub(v.lastUse) > r.ReapInterval {
 				// Drop the bucket, if there happen to be any waiting Take for it.
 				// It will return 'false', but this is fine for us since this
 				// whole 'reaping' process will run only when we are under a
@@ -103,20 +113,24 @@ func (r *BucketSet) take(key string) L {
 		}
 	}
 
-	bucket, ok := r.m[key]
+	b, ok := r.m[key]
 	if !ok {
-		r.m[key] = &struct {
-			r       L
-			lastUse time.Time
-		}{
+		b = &bucket{
 			r:       r.New(),
 			lastUse: time.Now(),
 		}
-		bucket = r.m[key]
+		r.m[key] = b
 	}
-	r.m[key].lastUse = time.Now()
+	b.lastUse = time.Now()
+	b.users++
 
-	return bucket.r
+	return b
+}
+
+func (r *BucketSet) unuse(b *bucket) {
+	r.mLck.Lock()
+	defer r.mLck.Unlock()
+	b.users--
 }
 
 func (r *BucketSet) Take(key string) bool {
@@ -124,8 +138,15 @@ func (r *BucketSet) Take(key string) bool {
 		return true
 	}
 
-	bucket := r.take(key)
-	return bucket.Take()
+	b := r.take(key)
+	if b == nil {
+		return false
+	}
+	if !b.r.Take() {
+		r.unuse(b)
+		return false
+	}
+	return true
 }
 
 func (r *BucketSet) Release(key string) {
@@ -136,11 +157,12 @@ func (r *BucketSet) Release(key string) {
 	r.mLck.Lock()
 	defer r.mLck.Unlock()
 
-	bucket, ok := r.m[key]
+	b, ok := r.m[key]
 	if !ok {
 		return
 	}
-	bucket.r.Release()
+	b.r.Release()
+	b.users--
 }
 
 func (r *BucketSet) TakeContext(ctx context.Context, key string) error {
@@ -148,6 +170,13 @@ func (r *BucketSet) TakeContext(ctx context.Context, key string) error {
 		return nil
 	}
 
-	bucket := r.take(key)
-	return bucket.TakeContext(ctx)
+	b := r.take(key)
+	if b == nil {
+		return ErrBucketSetFull
+	}
+	if err := b.r.TakeContext(ctx); err != nil {
+		r.unuse(b)
+		return err
+	}
+	return nil
 }
